@@ -105,16 +105,29 @@ GITIGNORES = ["node_modules\n*.log\n", "node_modules\n*.log", "node_modules\r\n*
 
 def c19_scenarios(ctx, abstract, tier):
     scen, meta = [], []
+    nabs = 0
     for a in abstract:
         # the bytes of an existing .gitignore matter to --init only ("appends"): every content variant there, one elsewhere
         variants = range(len(GITIGNORES)) if (a["gitignore"] and "init" in a["flags"]) else ([0] if tier == "quick" else [0, 1])
-        for var in variants:
+        # a second copy of the scenario with the spokfile reached through a symbolic link: wherever the action could write (--init, --fmt)
+        # and on every fifth of the others
+        nabs += 1
+        lvariants = [(v, False) for v in variants]
+        if a["kind"] != "missing" and ("init" in a["flags"] or "fmt" in a["flags"] or nabs % 5 == 0):
+            lvariants += [(list(variants)[0], True)]
+        for var, linked in lvariants:
             files = [{"p": "proj/", "dir": True}, {"p": "proj/sub/deep/", "dir": True}, {"p": "proj/a.txt", "c": "a\n"}, {"p": "proj/sub/b.txt", "c": "b\n"},
                      {"p": "proj/sub/deep/keep.md", "c": "keep\n"}, {"p": "other/x.txt", "c": "x\n"},
                      # neighbours a careless rewrite could use as scratch or backup names
                      {"p": "proj/spokfile.tmp", "c": "mine\n"}, {"p": "proj/spokfile.bak", "c": "mine\n"}, {"p": "proj/.spokfile.swp", "c": "mine\n"},
                      {"p": "proj/spokfile~", "c": "mine\n"}, {"p": "proj/spokfile.new", "c": "mine\n"}, {"p": "proj/.gitignore.tmp", "c": "mine\n"}]
-            if a["kind"] != "missing":
+            if a["kind"] != "missing" and linked:
+                # the spokfile is a symbolic link to a regular file kept elsewhere (a shared / generated spokfile): Find accepts it, so it
+                # is "an existing spokfile" for --init, and --fmt may rewrite the file it leads to, nothing else
+                files.append({"p": "conf/", "dir": True})
+                files.append({"p": "conf/real.spok", "c": KIND_TEXT[a["kind"]]})
+                files.append({"p": "proj/spokfile", "link": "../conf/real.spok"})
+            elif a["kind"] != "missing":
                 files.append({"p": "proj/spokfile", "c": KIND_TEXT[a["kind"]]})
             if a["gitignore"]:
                 files.append({"p": "proj/.gitignore", "c": GITIGNORES[var]})
@@ -129,7 +142,7 @@ def c19_scenarios(ctx, abstract, tier):
             steps.append({"cwd": cwd, "argv": [FLAG_ARGV[f] for f in sorted(a["flags"])] + (["--spokfile", "@HOME@/proj/spokfile" if len(scen) % 2 else "../proj/./spokfile"] if a["cwd"] == "elsewhere" else []),
                           "env": {}})
             scen.append({"id": len(scen) + 1, "files": files, "steps": steps})
-            meta.append(a)
+            meta.append(dict(a, linked=linked))
     return scen, meta
 
 
@@ -139,7 +152,8 @@ def rec_c19(s, a, r):
         last = k == len(r["steps"]) - 1
         act = a["action"] if last else "run"
         cwdp = {"root": ["proj"], "nested": ["proj", "sub", "deep"], "elsewhere": ["other"]}[a["cwd"]] if last else ["proj"]
-        sc.append({"action": act, "kind": a["kind"], "proj": ["proj"], "cwd": cwdp})
+        sc.append({"action": act, "kind": a["kind"], "proj": ["proj"], "cwd": cwdp,
+                   "spokreal": ["conf", "real.spok"] if a.get("linked") else ["proj", "spokfile"]})
         srec.append(step_rec(st, lines=True))
     return {"rel": "C19", "id": s["id"], "scen": sc, "steps": srec}
 
@@ -151,9 +165,9 @@ def run_c19(ctx):
     recs = [rec_c19(s, a, r) for s, a, r in zip(scen, meta, raw)]
     bad = judge_all(ctx, recs)
     st = selftest(ctx, [r for i, r in enumerate(recs) if i not in set(bad)], "C19")
-    report_bad(ctx, "C19", bad, recs, scen, meta, lambda i: "flags=%s (dispatches to %s) kind=%s cwd=%s gitignore=%s: changed paths %s (exit %s)" % (
-        sorted(meta[i]["flags"]), meta[i]["action"], meta[i]["kind"], meta[i]["cwd"], meta[i]["gitignore"], changed_paths(recs[i]["steps"][-1]), recs[i]["steps"][-1]["exit"]),
-        lambda i: "%s/%s/%s" % (meta[i]["action"], meta[i]["kind"], meta[i]["cwd"]))
+    report_bad(ctx, "C19", bad, recs, scen, meta, lambda i: "flags=%s (dispatches to %s) kind=%s%s cwd=%s gitignore=%s: changed paths %s (exit %s)" % (
+        sorted(meta[i]["flags"]), meta[i]["action"], meta[i]["kind"], " (spokfile is a link to conf/real.spok)" if meta[i].get("linked") else "", meta[i]["cwd"], meta[i]["gitignore"], changed_paths(recs[i]["steps"][-1]), recs[i]["steps"][-1]["exit"]),
+        lambda i: "%s/%s/%s%s" % (meta[i]["action"], meta[i]["kind"], meta[i]["cwd"], "/linked" if meta[i].get("linked") else ""))
     nontriv = sum(1 for r in recs if changed_paths(r["steps"][-1]))
     evidence(ctx, m, recs, nontriv, "abstract scenarios enumerated by TLC from SpokCLI's transition system (spokfile kind x action x cwd x .gitignore x .env x "
              "warm cache), built as real project trees and run through the binary as nobody; distinct_nontrivial = invocations that changed at least one path",
